@@ -73,7 +73,7 @@ def main():
     ap.add_argument("props", nargs="*")
     ap.add_argument("--tier", default="quick")
     ap.add_argument("--seed", type=int, default=0)
-    ap.add_argument("--out", default=os.path.join(VERIF, "evidence", "coverage_probe.json"))
+    ap.add_argument("--out", default=os.path.join(VERIF, "coverage", "coverage_probe.json"))
     a = ap.parse_args()
     props = a.props or sorted(registry.PROPS)
     report = {}
